@@ -21,9 +21,10 @@ func init() {
 			ruleZ6(c)
 			ruleZ7(c)
 			ruleH3(c)
+			ruleX5(c) // closing the mux from the write path's error branch cannot deadlock on a lock the writer holds
 			ruleX1(c) // a connection lost mid-frame closes the whole mux, which is what wakes the ttRPC client and fires the close notification Start waits for
 		},
-		explanation: "Time bounds and the behaviour of ttRPC on a cut connection are not decided.  Decided is the structure that termination and restartability rest on: every channel receive executed while the stub lock is held is a select with a second case that the end of the session makes ready (the close notification's channel) — the one bare receive, close() waiting for the server goroutine, is preceded on every path by closing the server; the close notification closes its channel before doing anything that may need the stub lock (Start holds it while waiting for that channel); the close notification registered with the ttRPC client carries a value created in that very Start activation and the teardown it triggers is control-dependent on comparing it with the stub's current session; every session resource set up by Start/connect, including the conditionally reused connection, is reset by a deferred cleanup on every failing exit; close() is only ever called with the stub lock held, resets started and conn, and the per-activation done channel is closed once, after the server result was sent to a channel of capacity >= 1; Wait only waits when started and Start refuses a started stub; Configure reports its result exactly once. A read failure in the multiplexer's reader closes the whole mux (not only the trunk), which is what wakes the ttRPC client and fires the close notification.",
+		explanation: "Time bounds and the behaviour of ttRPC on a cut connection are not decided.  Decided is the structure that termination and restartability rest on: every channel receive executed while the stub lock is held is a select with a second case that the end of the session makes ready (the close notification's channel) — the one bare receive, close() waiting for the server goroutine, is preceded on every path by closing the server; the close notification closes its channel before doing anything that may need the stub lock (Start holds it while waiting for that channel); the close notification registered with the ttRPC client carries a value created in that very Start activation and the teardown it triggers is control-dependent on comparing it with the stub's current session; every session resource set up by Start/connect, including the conditionally reused connection, is reset by a deferred cleanup on every failing exit; close() is only ever called with the stub lock held, resets started and conn, and the per-activation done channel is closed once, after the server result was sent to a channel of capacity >= 1; Wait only waits when started and Start refuses a started stub; Configure reports its result exactly once. A read failure in the multiplexer's reader closes the whole mux (not only the trunk), which is what wakes the ttRPC client and fires the close notification. No multiplexer lock is acquired while already held (the failing write path closes the mux with the write lock held).",
 		notDecided: []string{
 			"time bounds",
 			"what ttRPC does on a cut at a given byte",
